@@ -304,8 +304,15 @@ func expectMarkup(l markupLine) (markupExpect, error) {
 				return markupExpect{}, err
 			}
 			if seg.Close == "" {
+				// a self-closing replacement marker does not swallow the blank behind it - unless it says so itself
+				trim := false
+				if tw, ok := props["trimwhitespace"]; ok && precededByWSOrStart() {
+					trim = tw.BoolValue
+				}
 				attrs = append(attrs, wantAttr{seg.K, len(out), 0, props})
 				out = append(out, []rune(rep)...)
+				swallow = trim
+				continue
 			} else {
 				// open form: the enclosed source text is replaced, the attribute covers the replacement
 				attrs = append(attrs, wantAttr{seg.K, len(out), utf8.RuneCountInString(rep), props})
@@ -677,6 +684,9 @@ func genMarkupLine(t *rapid.T) markupLine {
 			seg := genReplacement(t)
 			if seg.Close == "all" {
 				open = nil
+			}
+			if prevWasText && seg.Close == "" && seg.K != "nomarkup" && rapid.IntRange(0, 2).Draw(t, "reptrim") == 0 {
+				seg.Props = append(seg.Props, mprop{"trimwhitespace", "bool", rapid.SampledFrom([]string{"true", "true", "false"}).Draw(t, "tw")})
 			}
 			l.Segs = append(l.Segs, seg)
 		}
